@@ -387,10 +387,26 @@ def impl_index(facts):
     return idx
 
 
-def resolve_targets(facts, path, _cache={}):
-    """fn keys a call to `path` may reach: the fn itself (or trait default body) plus, for a trait
-    method, every local impl of it."""
-    ck = (id(facts), path)
+def _norm_ty(t):
+    t = (t or '').strip()
+    while t.startswith('&'):
+        t = t[1:].strip()
+        if t.startswith('mut '):
+            t = t[4:].strip()
+    return t
+
+
+def _is_generic_ty(t):
+    t = _norm_ty(t)
+    return t == '' or t.startswith('impl ') or t.startswith('dyn ') or (t.isidentifier() and t[0].isupper() and '::' not in t) or t == 'Self' or t == '_'
+
+
+def resolve_targets(facts, path, self_ty=None, _cache={}):
+    """fn keys a call to `path` may reach: the fn itself (or the trait's default body) plus, for a trait
+    method, the local impls of it — only those whose self type matches `self_ty` when that type is
+    known and concrete; all of them when it is generic or unknown."""
+    st = _norm_ty(self_ty) if self_ty is not None else None
+    ck = (id(facts), path, st)
     if ck in _cache:
         return _cache[ck]
     out = []
@@ -399,36 +415,63 @@ def resolve_targets(facts, path, _cache={}):
         out.append(path)
     if '::' in path and not path.startswith('<'):
         tr, _, m = path.rpartition('::')
-        idx = facts.setdefault('_implidx', None) or impl_index(facts)
+        idx = facts.get('_implidx') or impl_index(facts)
         facts['_implidx'] = idx
-        # trait paths in impls are printed with generic args; compare on the prefix before '<'
         for t, ms in idx.items():
             if t.split('<')[0] == tr and m in ms:
-                out += ms[m]
+                for key in ms[m]:
+                    if st is None or _is_generic_ty(st):
+                        out.append(key)
+                    else:
+                        imp = fns[key].get('impl_of') or {}
+                        it = _norm_ty(imp.get('self'))
+                        if it == st or it.split('<')[0] == st.split('<')[0] or _is_generic_ty(it):
+                            out.append(key)
     _cache[ck] = out
     return out
 
 
 def callgraph(facts):
+    """fn key -> set of (callee path, self type or None)"""
     if '_cg' in facts:
         return facts['_cg']
     cg = {}
     for key, f in facts['fns'].items():
         outs = set()
-        for c in nodes(f['hir']):
-            p = callee(c) if c.get('k') in ('Call', 'MethodCall', 'Binary', 'Unary', 'AssignOp', 'Index') else None
-            if p:
-                outs.add(p)
+        allnodes = list(nodes(f['hir']))
+        called = {id(strip(c['fun'])) for c in allnodes if c.get('k') == 'Call'}
+        for c in allnodes:
+            k = c.get('k')
+            if k == 'Path' and id(c) in called:
+                continue
+            if k == 'MethodCall':
+                p = c.get('callee')
+                if p:
+                    outs.add((p, _norm_ty(strip(c['recv']).get('ty') or c['recv'].get('ty'))))
+            elif k == 'Call':
+                p = callee(c)
+                if p:
+                    # static trait-method call: Self is (for the constructors used here) the type of the expression
+                    outs.add((p, _norm_ty(c.get('ty'))))
+            elif k in ('Binary', 'AssignOp', 'Index'):
+                p = c.get('callee')
+                if p:
+                    outs.add((p, _norm_ty((c.get('l') or c.get('e') or {}).get('ty'))))
+            elif k == 'Unary':
+                p = c.get('callee')
+                if p:
+                    outs.add((p, _norm_ty(c['e'].get('ty'))))
             # address-taken fns (passed as values)
-            if c.get('k') == 'Path' and c['res'].get('k') == 'Def' and c['res'].get('dk', '').startswith(('Fn', 'AssocFn')):
-                outs.add(c['res']['path'])
+            if k == 'Path' and c['res'].get('k') == 'Def' and c['res'].get('dk', '').startswith(('Fn', 'AssocFn')):
+                outs.add((c['res']['path'], None))
         cg[key] = outs
     facts['_cg'] = cg
     return cg
 
 
 def reachable(facts, roots):
-    """fn keys reachable from roots through resolved callees (trait methods fan out to impls)."""
+    """fn keys reachable from roots through resolved callees (trait methods fan out to the impls
+    matching the receiver type; to all impls for generic receivers)."""
     cg = callgraph(facts)
     seen = set()
     work = list(roots)
@@ -437,8 +480,8 @@ def reachable(facts, roots):
         if k in seen:
             continue
         seen.add(k)
-        for p in cg.get(k, ()):
-            for t in resolve_targets(facts, p):
+        for p, ty in cg.get(k, ()):
+            for t in resolve_targets(facts, p, ty):
                 if t not in seen:
                     work.append(t)
     return seen
